@@ -139,6 +139,22 @@ static double nipals_delta(int n, double conv) { return sqrt((double)n * conv); 
 /* DESIGN section 3 rule 2: direction allowance of component k (1-based) with eigenvalue ratio r < 1 */
 static double nipals_allow(int k, double delta, double r) { return 5.0 * k * delta / ((1.0 - r) * (1.0 - r)); }
 
+/* ------------------------------------------------------------------ margins (notes only)
+ * With VERIF_MARGINS=<file> every new per-check maximum of measured/allowance is appended to the file, so that
+ * the distance between healthy runs and the allowance can be tabulated.  No effect on verdicts. */
+static void margin_note(const char *name, double measured, double allowance) {
+  static char names[96][64]; static double best[96]; static int nn = 0; static const char *path = NULL; static int init = 0;
+  if (!init) { path = getenv("VERIF_MARGINS"); init = 1; }
+  if (!path || !(allowance > 0)) return;
+  double ratio = measured / allowance; int k;
+  for (k = 0; k < nn; k++) if (strcmp(names[k], name) == 0) break;
+  if (k == nn) { if (nn >= 96) return; snprintf(names[nn], sizeof names[0], "%s", name); best[nn] = -1; nn++; }
+  if (ratio > best[k] * 1.1 || (best[k] < 0)) {
+    best[k] = ratio; char line[200]; int l = snprintf(line, sizeof line, "%s %.3e %.3e %.3e\n", name, ratio, measured, allowance);
+    int fd = open(path, O_WRONLY | O_CREAT | O_APPEND, 0644); if (fd >= 0) { if (write(fd, line, (size_t)l) < 0) {} close(fd); }
+  }
+}
+
 static inline matrix *hm_copy(const matrix *a) { matrix *m; NewMatrix(&m, a->row, a->col); for (size_t i = 0; i < a->row; i++) memcpy(m->data[i], a->data[i], sizeof(double) * a->col); return m; }
 static inline ld frob_m(const matrix *a) { ld s = 0; for (size_t i = 0; i < a->row; i++) for (size_t j = 0; j < a->col; j++) s += (ld)a->data[i][j] * a->data[i][j]; return sqrtl(s); }
 #endif
